@@ -609,7 +609,15 @@ func classifyOne(p *Prog, a *Org) Src {
 	case "field":
 		root, names := a.FieldPath()
 		if root.K == "param" {
-			return Src{Kind: "field", A: root.Name + "." + strings.Join(names, ".")}
+			// the per-line processor object is named by its type, not by the
+			// parameter's spelling
+			rn := root.Name
+			if root.V != nil {
+				if nt := namedOf(root.V.Type()); nt != nil && nt.Obj().Name() == "SshdProcessorer" {
+					rn = "config"
+				}
+			}
+			return Src{Kind: "field", A: rn + "." + strings.Join(names, ".")}
 		}
 		return Src{Kind: "field", A: root.String() + "." + strings.Join(names, ".")}
 	case "call":
